@@ -142,7 +142,7 @@ def sccp(ctx, b, calls=None, args=None):
 # ------------------------------------------------------------------ C13 flag q
 
 
-@rule("LITERAL-PATH", ["C13"], floor=4)
+@rule("LITERAL-PATH", ["C13", "C14", "C07", "C01"], floor=4)
 def literal_path(ctx):
     """With flag q the compiler never reaches the parser, the whitespace stripper or any other flag: the program
     is Atom(pattern unmodified) + EndProgram with one group."""
@@ -186,6 +186,28 @@ def literal_path(ctx):
         out.append(bad("no-pattern-store", "with flag q compile() modifies the compiler state (pattern/len)", b.loc(stores[0])))
     else:
         out.append(ok("no-pattern-store"))
+    # a literal is never rejected: no error is constructed on a block that is executable under flag q
+    rej = []
+    for bi, blk in enumerate(b.blocks):
+        if blk["cleanup"] or not sc.executable(bi):
+            continue
+        for st in blk["stmts"]:
+            if st["k"] == "assign" and st["rv"].get("k") == "agg" and (strip_lt(st["rv"].get("adt", "")) == "re_compiler::Error" or (strip_lt(st["rv"].get("adt", "")) == "std::result::Result" and st["rv"].get("variant") == "Err")):
+                rej.append(bi)
+        tt = blk["term"]
+        if tt["k"] == "call":
+            d_, r_, fn_ = callee(tt)
+            if r_ and r_.startswith("re_compiler::Error::"):
+                rej.append(bi)
+    out.append(ok("literal-never-rejected") if not rej else bad("literal-never-rejected", "with flag q compile() can construct an error: every string is a valid literal (e.g. unbalanced parentheses)", b.loc(rej[0])))
+    # and the converse: without flag q the whole-pattern atom is not built
+    sc0 = sccp(ctx, b, {"ReFlags::is_literal": F})
+    lit = [bb for bb, r in exec_calls(ctx, b, sc0) if r == "op_atom::Atom::new" and show(se.operand(b.blocks[bb]["term"]["args"][0])) == "a1.pattern"]
+    i_ = ok("literal-program-only-with-q") if not lit else bad("literal-program-only-with-q", "without flag q compile() can still take the literal branch (the pattern as a whole becomes one atom): flags such as x and the parser's checks are bypassed", b.loc(lit[0]))
+    for o_ in out:
+        o_.props = ["C13"]
+    i_.props = ["C13", "C14", "C07", "C01"]
+    out.append(i_)
     return out
 
 
@@ -499,7 +521,7 @@ def x_strip_state(ctx):
     return res
 
 
-@rule("X-STRIP-GATE", ["C14", "C13", "C03"], floor=5)
+@rule("X-STRIP-GATE", ["C14", "C13", "C03", "C07"], floor=5)
 def x_strip_gate(ctx):
     """The stripping loop runs iff flag x is set and flag q is not, before the parser; its output replaces
     self.pattern together with self.len and is what ReProgram receives."""
